@@ -405,6 +405,80 @@ fn h_lib_writer_refused() {
     kani::cover!(true, "scenario executed");
 }
 
+//@ props: C09
+//@ functions: ArchiveWriter::append_file_content; ArchiveWriter::end_file (refusal of an id that is not open, before anything is written or recorded)
+//@ bounds: writer with NO open file and empty tables; ANY id, ANY announced size (0 included), empty source
+//@ stubs: std::hash::RandomState::new -> fixed keys; alloc::fmt::format; From<mla::Error> for io::Error
+//@ outside: ids of files that were opened and ended earlier (need hash-table inserts)
+//@ replay: verif_replay_lib::lib_writer_unknown_id id:u64 size:u64
+#[kani::proof]
+#[kani::unwind(34)]
+#[kani::stub(alloc::fmt::format, nofmt)]
+#[kani::stub(<std::io::Error as std::convert::From<crate::errors::Error>>::from, cheap_from)]
+#[kani::stub(std::hash::RandomState::new, fixed_random_state)]
+fn h_lib_writer_unknown_id() {
+    let id: u64 = kani::any();
+    let size: u64 = kani::any();
+    let mut w = mk_archive_writer(ArchiveWriterState::OpenedFiles { ids: Vec::new(), hashes: HashMap::new() });
+    kani::cover!(size == 0, "empty piece for an id that was never issued");
+    kani::cover!(size > 0 && id == 0, "id equal to the writer's initial current id");
+    let empty: &[u8] = &[];
+    let r = w.append_file_content(id, size, empty);
+    let refused = r.is_err();
+    core::mem::forget(r);
+    assert!(refused, "content accepted for an id that is not an open file");
+    assert!(w.dest.position() == 0, "a refused append wrote to the archive");
+    assert!(w.current_id == 0 && w.next_id == 0, "a refused append changed the writer's bookkeeping");
+    let r2 = w.end_file(id);
+    let refused2 = r2.is_err();
+    core::mem::forget(r2);
+    assert!(refused2, "end of file accepted for an id that is not an open file");
+    assert!(w.dest.position() == 0, "a refused end_file wrote to the archive");
+    match &w.state {
+        ArchiveWriterState::OpenedFiles { ids, .. } => assert!(ids.is_empty(), "refused calls changed the set of open files"),
+        ArchiveWriterState::Finalized => assert!(false, "refused calls finalized the writer"),
+    }
+    core::mem::forget(w);
+}
+
+//@ props: C14
+//@ functions: ArchiveWriter::flush (forwarded to the layers whatever the writer's state)
+//@ bounds: writer with no open file, with one open file id (ANY id), or finalized; layers: position counter over the recording sink
+//@ stubs: std::hash::RandomState::new -> fixed keys; alloc::fmt::format; From<mla::Error> for io::Error
+//@ outside: what the compression / encryption writers do with the flush (h_cmp_writer_flush, h_enc_w_*)
+//@ replay: verif_replay_lib::lib_writer_flush which:u8
+#[kani::proof]
+#[kani::unwind(34)]
+#[kani::stub(alloc::fmt::format, nofmt)]
+#[kani::stub(<std::io::Error as std::convert::From<crate::errors::Error>>::from, cheap_from)]
+#[kani::stub(std::hash::RandomState::new, fixed_random_state)]
+fn h_lib_writer_flush() {
+    let which: u8 = kani::any();
+    kani::assume(which < 3);
+    let id: u64 = kani::any();
+    let state = if which == 0 {
+        ArchiveWriterState::OpenedFiles { ids: Vec::new(), hashes: HashMap::new() }
+    } else if which == 1 {
+        let mut ids = Vec::with_capacity(1);
+        ids.push(id);
+        ArchiveWriterState::OpenedFiles { ids, hashes: HashMap::new() }
+    } else {
+        ArchiveWriterState::Finalized
+    };
+    let mut w = mk_archive_writer(state);
+    unsafe {
+        REC_FLUSHES = 0;
+    }
+    kani::cover!(which == 0, "flush with no file in progress");
+    kani::cover!(which == 1, "flush with a file open");
+    let r = w.flush();
+    let ok = r.is_ok();
+    core::mem::forget(r);
+    assert!(ok, "flush fails on a healthy sink");
+    assert!(unsafe { REC_FLUSHES } >= 1, "flush() returned without reaching the destination: blocks of files already closed are still inside the layers");
+    core::mem::forget(w);
+}
+
 // (H-W-SEQ dropped: an interleaving scenario with concrete names/ids and ONE symbolic piece size did
 //  not finish symbolic execution in 10 min — hashbrown insert/probe loops over Kani's SIMD model.
 //  Only operations on EMPTY hash tables are within reach (h_lib_writer_refused above).)
